@@ -29,7 +29,16 @@ def check_addr(case, ev):
     fam, cfg, x, x2 = case["fam"], case["cfg"], case["x"], case["x2"]
     W = 32 if fam == 4 else 128
     B = cfg["B4"] if fam == 4 else cfg["B6"]
-    an, exc = guarded(G.mk, cfg, fam)
+    import logging
+
+    root = logging.getLogger()
+    old_level = root.level
+    if case.get("debug"):
+        root.setLevel(logging.DEBUG)  # what `--log-level DEBUG` does; must not change any result
+    try:
+        an, exc = guarded(G.mk, cfg, fam)
+    finally:
+        root.setLevel(old_level)
     if exc is not None:
         return core.exc_finding(exc, case, "ctor/")
     y, exc = guarded(an.anonymize, x)
@@ -42,7 +51,7 @@ def check_addr(case, ev):
     y2f, exc = guarded(fresh.anonymize, x2)
     if exc is not None:
         return core.exc_finding(exc, case, "anonymize/")
-    cls = ["v%d" % fam, "mode-" + cfg.get("mode", "?"), "B-%s" % ("0" if B == 0 else "32" if B == 32 else "mid")]
+    cls = ["v%d" % fam, "mode-" + cfg.get("mode", "?"), "B-%s" % ("0" if B == 0 else "32" if B == 32 else "mid")] + (["debug-logging"] if case.get("debug") else [])
     near = False
     f = None
     if fam == 4:
@@ -173,7 +182,7 @@ def _case(draw):
         x = draw(G.v6_int)
         B = cfg["B6"]
     x2 = ((x >> B) << B) | (draw(st.integers(0, (1 << B) - 1)) if B else 0)
-    return {"fam": fam, "cfg": cfg, "x": x, "x2": x2}
+    return {"fam": fam, "cfg": cfg, "x": x, "x2": x2, "debug": draw(st.integers(0, 3)) == 0}
 
 
 @st.composite
